@@ -206,7 +206,9 @@ func runWorkerRaw(bin string, j job, timeout time.Duration, procs int) (*result,
 	if procs > 1 {
 		limit = "" // the race detector reserves a huge virtual address range
 	}
-	cmd := exec.Command("bash", "-c", limit+"exec \"$0\" -procs \"$2\" -job \"$1\"", bin, string(b), strconv.Itoa(procs))
+	// the job goes in on stdin (jobs that start from long prefixes exceed the argument size limit)
+	cmd := exec.Command("bash", "-c", limit+"exec \"$0\" -procs \"$1\"", bin, strconv.Itoa(procs))
+	cmd.Stdin = bytes.NewReader(b)
 	cmd.Env = append(os.Environ(), "GOMAXPROCS="+strconv.Itoa(procs), "GORACE=halt_on_error=0")
 	var stdout, stderr bytes.Buffer
 	cmd.Stdout = &stdout
